@@ -1,6 +1,8 @@
 import Pamqp.Spec.Wire
 import Pamqp.Spec.Defs
 import Pamqp.Props.C12
+import Pamqp.Proofs.Refine
+import Pamqp.Proofs.RefineArgs
 /-!
 # C04 — encoded bytes equal the AMQP 0-9-1 wire format (independent reference)
 Refinement: the operational model of pamqp's encoder (tied to the code by the exact-bytes lanes)
@@ -16,12 +18,13 @@ of the active ladder -/
 theorem C04_value_refines_spec (legacy : Bool) (v : PyVal) (bs : Bytes)
     (h : Encode.tableValue legacy v = .ok bs) (hk : KeysDistinct v) :
     ∃ fv, Spec.lower legacy v = some fv ∧ fv.wire = bs ∧ fv.WF ∧ fv.IntTagsIn (Spec.ladderTags legacy) := by
-  sorry
+  obtain ⟨fv, h1, h2, h3, h4, _⟩ := Proofs.Refine.value_ref legacy v bs h hk
+  exact ⟨fv, h1, h2, h3, h4⟩
 
 /-- entries are emitted in ascending key order at every nesting level (keys short enough not to be truncated) -/
 theorem C04_value_sorted (legacy : Bool) (v : PyVal) (h : Spec.Encodable legacy v) :
     ∃ fv, Spec.lower legacy v = some fv ∧ fv.Sorted := by
-  sorry
+  exact Proofs.Refine.value_sorted legacy v h
 
 /-- method arguments: specification order, consecutive bits packed LSB-first into shared octets -/
 theorem C04_args_refine_spec (legacy : Bool) (tvs : List (WireTy × PyVal)) (bs : Bytes)
@@ -29,13 +32,13 @@ theorem C04_args_refine_spec (legacy : Bool) (tvs : List (WireTy × PyVal)) (bs 
     (hty : ∀ p ∈ tvs, Spec.argOK legacy p.1 p.2)
     (h : Base.marshalLoop legacy 0 0 false tvs = .ok bs) :
     Spec.argsWire legacy (tvs.length + 1) tvs = some bs := by
-  sorry
+  exact Proofs.Refine.args_refine legacy tvs bs hrun hty h
 
 /-- the envelope: type octet, big-endian channel and payload size, payload, 0xCE -/
 theorem C04_envelope_layout (kind ch : Nat) (hk : kind < 256) (hc : ch < 65536) (payload : Bytes)
     (hl : payload.length < 2 ^ 32) :
     Frame.envelope kind (.int ch) payload = .ok (Spec.Envelope.wire ⟨kind, ch, payload⟩) := by
-  sorry
+  exact Proofs.Refine.envelope_layout kind ch hk hc payload hl
 
 /-- method frame payload = big-endian class/method index + arguments; header payload = class id,
 weight 0, body size, flag word (sum of the present properties' flags), property list -/
@@ -45,12 +48,12 @@ theorem C04_header_payload_layout (legacy : Bool) (cat : Cat) (hwf : Spec.flagsW
     (h : Frame.headerPayload legacy cat (.int size) vals = .ok bs) :
     ∃ fl parts, Spec.propsWire legacy (cat.props.zip vals) = some (fl, parts) ∧ fl < 65536 ∧
       bs = beN 2 cat.basicClassId ++ [0, 0] ++ beN 8 size ++ beN 2 fl ++ parts := by
-  sorry
+  exact Proofs.Refine.header_payload_layout legacy cat hwf hcls size hs vals hlen hok bs h
 
 /-- fixed frames -/
 theorem C04_fixed_frames (legacy : Bool) (cat : Cat) (ch : PyVal) :
     Frame.marshal legacy cat .heartbeat ch = .ok (Spec.Envelope.wire ⟨8, 0, []⟩) ∧
     Frame.marshal legacy cat (.protocolHeader (.int 0) (.int 9) (.int 1)) ch = .ok [65, 77, 81, 80, 0, 0, 9, 1] := by
-  sorry
+  exact Proofs.Refine.fixed_frames legacy cat ch
 
 end Pamqp.Props
